@@ -1080,11 +1080,34 @@ func (e *Eng) siteEnv(fr *Frame) *Env {
 	}
 	sort.Slice(doms, func(i, j int) bool { return domDepth(doms[i]) < domDepth(doms[j]) })
 	for _, b := range doms {
+		var phis []*ssa.Phi
+		own := false
 		for _, ins := range b.Instrs {
-			if p, ok := ins.(*ssa.Phi); ok && p.Comment != "" {
-				if v, ok := fr.vals[p]; ok {
-					env.vars[p.Comment] = v
-					env.vars[strings.ReplaceAll(p.Comment, ".", "_")] = v
+			if p, ok := ins.(*ssa.Phi); ok {
+				phis = append(phis, p)
+				if p.Comment == "rangeindex" {
+					own = true
+				}
+				if p.Comment != "" {
+					if v, ok := fr.vals[p]; ok {
+						env.vars[p.Comment] = v
+						env.vars[strings.ReplaceAll(p.Comment, ".", "_")] = v
+					}
+				}
+			}
+		}
+		if !own {
+			// same alias as in loop invariants: rangeindex = (the loop's only unit counter from 0) - 1
+			var cnt *ssa.Phi
+			n := 0
+			for _, p := range phis {
+				if isUnitCounterFromZero(b, p) {
+					cnt, n = p, n+1
+				}
+			}
+			if n == 1 {
+				if v, ok := fr.vals[cnt]; ok {
+					env.vars["rangeindex"] = &Val{T: sx("-", v.T, "1"), Typ: types.Typ[types.Int], KnownLen: -1}
 				}
 			}
 		}
